@@ -95,6 +95,48 @@ theorem rejected_requests_invisible {σ : Type} (cfg : Cfg) (h : Route → Reque
     run cfg codeRoutes h s qs = run cfg codeRoutes h s (qs.filter fun q => (dispatch cfg codeRoutes q).isServed) :=
   run_filter_served cfg codeRoutes h s qs
 
+/-- **filter order**: in every route's `and`-chain all access filters (`with_rbac`,
+`with_optional_raft_auth`, `with_api_key`, `with_admin_key`) stand before the first body filter
+(`body::content_length_limit`, `body::json`): a caller the filters refuse never makes the server read or
+parse a request body. (On the SaaS routes the *header* filter stands before the body, the key itself is
+validated by the handler's guard, i.e. after the body was parsed: an invalid key with a malformed body
+is answered 400, not 401 — refused either way.) -/
+theorem access_filters_before_body : ∀ r ∈ codeRoutes, r.authBeforeBody = true := by
+  have h : (codeRoutes.all fun r => r.authBeforeBody) = true := by decide +kernel
+  intro r hr
+  exact List.all_eq_true.mp h r hr
+
+/-- **closure routes of main.rs vs documentation**: the documented operations outside `/api/` (`/health`,
+`/ready`) are closure routes with the documented method and no access filter, documented as open -/
+theorem closure_routes_agree_with_doc :
+    ∀ d ∈ docRoutes, isApiPath d.path = false →
+      d.req = .open ∧ ∃ m ∈ mainRoutes, m.path = d.path ∧ m.method = some d.method ∧ m.access = [] := by
+  have h : closureDocAgree docRoutes mainRoutes = true := by decide +kernel
+  intro d hd hapi
+  have := List.all_eq_true.mp h d hd
+  simp only [hapi, Bool.false_or, Bool.and_eq_true, beq_iff_eq, List.any_eq_true, List.isEmpty_iff] at this
+  obtain ⟨hreq, m, hm, ⟨hp, hmeth⟩, hacc⟩ := this
+  exact ⟨hreq, m, hm, hp, hmeth, hacc⟩
+
+/-- the closure routes are unauthenticated GET probes (`/health`, `/ready`, `/metrics`), except `/ws`,
+which carries `auth::with_auth`; and none of them starts like a route of the trees mounted after them
+(they are prefix patterns tried first: a clash would answer in the tree route's place, unauthenticated) -/
+theorem closure_routes_access_and_disjoint :
+    (∀ m ∈ mainRoutes, if m.path = [.lit "ws"] then m.access = ["auth::with_auth"]
+        else m.access = [] ∧ m.method = some .get) ∧
+    (∀ m ∈ mainRoutes, ∀ r ∈ codeRoutes, r.path.head? ≠ m.path.head?) := by
+  constructor
+  · have h : closureAccessOk mainRoutes = true := by decide +kernel
+    intro m hm
+    have := List.all_eq_true.mp h m hm
+    split at this <;> rename_i hp
+    · rw [if_pos (by simpa using hp)]; simpa using this
+    · rw [if_neg (by simpa using hp)]; simpa using this
+  · have h : closureDisjoint mainRoutes codeRoutes = true := by decide +kernel
+    intro m hm r hr
+    have := List.all_eq_true.mp (List.all_eq_true.mp h m hm) r hr
+    simpa using this
+
 /-- roles are a chain: what a role may do, every higher role may do -/
 theorem role_hierarchy (a b c : Role) (hab : a.hasPermission b = true) (hbc : b.hasPermission c = true) :
     a.hasPermission c = true := by
